@@ -625,6 +625,31 @@ fn gen_input(r: &mut Rng, maxlen: usize) -> String {
     let n = r.below(maxlen + 1);
     (0..n).map(|_| *r.pick(ALPHA)).collect()
 }
+/// a finite language as a regex: words of length 1..3, grouped by first letter into `x(..|..)` with probability 1/2 (factored form), else flat
+fn gen_finite(r: &mut Rng, alpha: &[char]) -> String {
+    let nw = 1 + r.below(5);
+    let mut words: Vec<String> = vec![];
+    for _ in 0..nw {
+        let l = 1 + r.below(3);
+        let w: String = (0..l).map(|_| *r.pick(alpha)).collect();
+        if !words.contains(&w) { words.push(w); }
+    }
+    words.sort();
+    let body = if r.below(2) == 0 { words.join("|") } else {
+        let mut parts: Vec<String> = vec![];
+        let mut i = 0;
+        while i < words.len() {
+            let c = words[i].chars().next().unwrap();
+            let mut j = i;
+            let mut tails: Vec<String> = vec![];
+            while j < words.len() && words[j].starts_with(c) { tails.push(words[j][c.len_utf8()..].to_string()); j += 1; }
+            if tails.len() == 1 { parts.push(words[i].clone()); } else { parts.push(format!("{}({})", c, tails.join("|"))); }
+            i = j;
+        }
+        parts.join("|")
+    };
+    match r.below(6) { 0 => format!("({})+", body), 1 => format!("({})*{}", body, r.pick(alpha)), _ => body }
+}
 fn gen_pats(r: &mut Rng, with_la: bool, n: usize, numbering: usize) -> Vec<PatSpec> {
     let mut tts: Vec<usize> = match numbering {
         0 => (0..n).collect(),
@@ -663,6 +688,26 @@ fn gen_case(family: &str, r: &mut Rng) -> Case {
             let start = if r.below(3) == 0 { *r.pick(&b) } else { 0 };
             let n = input.chars().count() + 2;
             Case { family: family.into(), modes: vec![ModeSpec { name: "M0".into(), pats, trans: vec![] }], input, start_offset: start, ops: vec![Op::Next; n], with_positions: false }
+        }
+        "finite" => {
+            // random finite languages written as (partly factored) alternations of short words over a small alphabet, optionally starred / plussed as a whole:
+            // many different automaton shapes (states with several classes into one group, several targets on one class, merged suffixes) for the
+            // epsilon-elimination and the minimizer; token types may be shared between patterns of the mode (no lookaheads here)
+            let alpha: Vec<char> = "abcdxy".chars().take(3 + r.below(4)).collect();
+            let np = 1 + r.below(3);
+            let mut pats: Vec<PatSpec> = vec![];
+            for i in 0..np {
+                let p = gen_finite(r, &alpha);
+                // a token type may be shared with the pattern listed directly before (adjacent sharing keeps "first pattern with that token type" = "first such
+                // pattern in the list" for every tie; non-adjacent sharing runs into known finding D10)
+                let tt = if i > 0 && r.below(4) == 0 { pats[i - 1].tt } else { i };
+                pats.push(PatSpec { p, tt, la: None });
+            }
+            if r.below(3) == 0 { pats.push(PatSpec { p: "[a-z]".into(), tt: np + 1, la: None }); }
+            let n = r.below(8);
+            let input: String = (0..n).map(|_| *r.pick(&alpha)).collect();
+            let cnt = input.chars().count() + 2;
+            Case { family: family.into(), modes: vec![ModeSpec { name: "M0".into(), pats, trans: vec![] }], input, start_offset: 0, ops: vec![Op::Next; cnt], with_positions: false }
         }
         "modes" | "peek" | "offset" | "isolation" => {
             let nm = 1 + r.below(4);
